@@ -245,6 +245,10 @@ func extreme(rng *rand.Rand, bits int) uint64 {
 	return rng.Uint64() & mask
 }
 
+// noLimit keeps slices away from their maximum length: the value the systematic part multiplies by every length prefix
+// and boundary length must stay small (a value with 256 transactions has some 770 prefixes: gigabytes of records)
+var noLimit = false
+
 // Force, when not 99, makes every slice with a small maximum length exactly max+Force long (the systematic part of a run)
 var Force = 99
 
@@ -252,7 +256,7 @@ func length(rng *rand.Rand, around, max int) int {
 	if max > 0 && max <= 600 && Force != 99 {
 		return max + Force
 	}
-	if max > 0 && max <= 600 && rng.Intn(6) == 0 {
+	if max > 0 && max <= 600 && !noLimit && rng.Intn(6) == 0 {
 		return max - 1 + rng.Intn(3) // at the limit: max-1, max, max+1
 	}
 	switch rng.Intn(5) {
@@ -427,7 +431,9 @@ func Run(pkg string, codecs []Codec) error {
 		// the end, and values whose bounded slices are exactly at, one below and one above their maximum
 		{
 			obj := c.New()
+			noLimit = true
 			Fill(rng, reflect.ValueOf(obj).Elem(), 1, 0)
+			noLimit = false
 			base := encoder.Serialize(obj)
 			pfxs := []Pfx{}
 			Prefixes(reflect.ValueOf(obj), 0, 0, &pfxs)
